@@ -351,7 +351,57 @@ PROPS = {
         "rule": "as C01; about half of the later sessions re-upload earlier files unchanged and must report new_bytes = 0",
         "assumptions": ["shard manager lookup completeness (no truncated-prefix collision, offsets <= u16::MAX, index below its cap) is not a theorem here"],
     },
+    "C12": {
+        "modules": ["XetProps.C12"],
+        "theorems": [
+            "Xet.Cache.C12_invariant", "Xet.Cache.C12_hit_partial", "Xet.Cache.C12_get_seq",
+            "Xet.Cache.C12_scan_total", "Xet.Cache.C12_prefix_F14_witness", "Xet.Cache.C12_get_no_panic",
+            "Xet.Cache.C12_no_panic_step", "Xet.Cache.C12_no_panic",
+            "Xet.Cache.itemPath_inj", "Xet.Cache.b64Decode_encode", "Xet.Cache.b64Encode_decode",
+            "Xet.Cache.parseFileName_fileName", "Xet.Cache.fileName_parse",
+            "Xet.Cache.parseHeader_encodeFile", "Xet.Cache.getRange_encodeFile",
+            "Xet.Cache.Detectable.erase", "Xet.Cache.Detectable.mkdir", "Xet.Cache.Detectable.write", "Xet.Cache.Detectable.trans",
+        ],
+        "suites": ["cache_seq", "cache_conc"],
+        "level_text": "Theorems for every CRC function, every reference data X, every history = any interleaving of consistent puts and "
+                      "arbitrary gets of any number of threads at schedule-point granularity (all eviction choices, all deletion orders) "
+                      "and any number of close/damage/re-open events with Detectable damage: a hit returns exactly the slice of the "
+                      "reference xorb and the rebased offsets (C12_hit_partial, C12_get_seq); no operation and (after the F14 fix) no "
+                      "directory scan has a panic outcome; file-name/key-dir/header codecs round-trip and are canonical. PARTIAL: the damage "
+                      "class is 'CRC-consistent item files are untouched' (the model, like the code, re-checks only the CRC on read); "
+                      "renames/moves preserving the (len,crc) name fields are outside it (F12, known finding). Tied to DiskCache by two "
+                      "differential suites (sequential histories with damage and re-open; hook-driven thread schedules).",
+        "design_ref": "DESIGN.md section 4, C12/C13",
+        "technique": "Lean 4 proof (invariant over a step-granular concurrent semantics + scan) + differential correspondence with oracle replay",
+        "rule": "cache_seq case = one sequence of ~60-80 ops (2-4 keys, 3-9 chunks, capacity 0.5x-6x the largest item, puts of random "
+                "sub-ranges incl. malformed arguments, gets incl. empty/out-of-range, close + 0-3 damage actions of 15 kinds + re-open with "
+                "same/half/double capacity); distinct by hash of the request line; non-trivial = at least one eviction and one hit. "
+                "cache_conc case = one schedule (2-4 threads x 1-2 ops from a small pool so identical puts meet, optional solo prefix + re-open); "
+                "non-trivial = more than 2 steps per thread",
+        "assumptions": ["CRC-32 itself is compared (Lean CRC-32 vs crc32fast on every file), not proved; theorems hold for every crc function",
+                        "std::fs / rename atomicity / Mutex behave as the step semantics says; segments between two schedule points are atomic in the model",
+                        "read_dir order and rand::random eviction choices are oracle inputs observed on the implementation"],
+    },
+    "C13": {
+        "modules": ["XetProps.C13"],
+        "theorems": [
+            "Xet.Cache.C13_exact", "Xet.Cache.C13_commit_no_underflow", "Xet.Cache.C13_capacity", "Xet.Cache.C13_files_tracked",
+            "Xet.Cache.C13_read_back_drops", "Xet.Cache.C13_prefix_weak", "Xet.Cache.C13_prefix_F10_witness",
+        ],
+        "suites": ["cache_seq", "cache_conc"],
+        "level_text": "Theorems over ALL interleavings (any number of threads, any oracle values, identical concurrent puts included) of the "
+                      "post-fix step function: num_items = number of tracked entries and total_bytes = sum of their lengths in every reachable "
+                      "state; every commit of an item <= capacity ends with total_bytes <= capacity; the state lock is never poisoned; at every "
+                      "quiescent point every file at an item path is tracked. For the pre-fix step: item count exact, total_bytes never too small, "
+                      "plus the decide'd witness schedule where it is too large (F10). PARTIAL: exactness after re-open (C13_reopen_exact) and "
+                      "'totals = disk after read-back' (C13_disk_full) are kept as statements and covered by the suites only.",
+        "design_ref": "DESIGN.md section 4, C12/C13",
+        "technique": "Lean 4 proof (invariants over the step-granular concurrent semantics) + differential correspondence (hook-driven schedules)",
+        "rule": "see C12",
+        "assumptions": ["no single item larger than the capacity (hypothesis of C13_capacity; the suites also generate larger items and then switch the capacity monitor off)",
+                        "Mutex / std::fs as in C12"],
+    },
 }
 
-HOOK_COMMITS = ["9bb2102", "a056c58", "25c3aff", "24644df", "9cc9f64"]
+HOOK_COMMITS = ["9bb2102", "a056c58", "25c3aff", "24644df", "9cc9f64", "baf5f6a"]
 NOT_YET = {}
